@@ -143,6 +143,7 @@ func c11Entries() []string {
 		"com", "a.com", "x.a.com", "full:a.com", "full:com", "domain:b.com", "COM", "A.Com",
 		".", "domain:", c11L25 + ".com", c11L63 + ".com", `regexp:^a\.`, `regexp:^\\095x\.`, `regexp:^1\.`,
 		"b.com.", "full:.", "y." + c11L25 + ".com", "a\x00.com", "full:", "x.b.com",
+		"\xc3\x89.com", "full:\xff\xfe.com", "\xe2\x84\xaa.com", // non-ASCII octets: only ASCII letters are case-folded
 	}
 }
 
@@ -153,6 +154,7 @@ func c11Names() [][][]byte {
 		c11L(c11L25, "com"), c11L("x", c11L25, "com"), c11L("y", c11L25, "com"), c11L(c11L63, "com"), c11L("z", c11L63, "com"),
 		c11L("a\x00", "com"), c11L("_x", "com"), c11L("\x01", "com"), c11L("1", "com"), c11L("a.b", "com"), c11L("a\\", "com"),
 		c11L("a\x00\x00", "com"), c11L("com\x00"), c11L("a", "com", "a"), c11L("xa", "com"),
+		c11L("\xc3\x89", "com"), c11L("\xc3\xa9", "com"), c11L("\xff\xfe", "com"), c11L("\xe2\x84\xaa", "com"), c11L("k", "com"), c11L("\xef\xbf\xbd\xef\xbf\xbd", "com"),
 		c11L(strings.Repeat("p", 63), strings.Repeat("q", 63), strings.Repeat("r", 63), strings.Repeat("s", 57), "com"),
 		c11L(strings.Repeat("p", 63), strings.Repeat("q", 63), strings.Repeat("r", 63), strings.Repeat("s", 57), "org"),
 	}
